@@ -871,6 +871,10 @@ def run_C13(res, tier, seed, t_end, bad):
     Mx.run_cases(res, 'C13', Mx.db_cases(), tier, seed, t_end, 200, OBSERVERS['C13'], None, label='databases')
     if res.findings:
         return
+    # ECHO, PING, TIME, SAVE/BGSAVE/LASTSAVE, FLUSHDB, DBSIZE, SELECT in every shape (directly, in MULTI, while subscribed)
+    Mx.run_cases(res, 'C13', Mx.server_cases(), tier, seed, t_end, 2000, OBSERVERS['C13'], None, label='server-commands')
+    if res.findings:
+        return
     Cp.run_campaign(res, 'C13', plan_q if tier == 'quick' else plan_t, budget(tier, 40, 800), seed, PROPS['C13']['scope'], OBSERVERS['C13'], deadline=t_end)
     if not res.findings:
         import clientlevel
@@ -1049,6 +1053,7 @@ RUNNERS = {
     'C09': generic('C09', plan_removal(60), plan_removal(90), 30, 500, OBSERVERS['C09'],
                    pre=lambda res, tier, seed, t_end, bad: matrix_pre(res, 'C09', tier, seed, t_end,
                                                                     [('missing-keys', lambda: Mx.missing_cases(random.Random(seed), 2 if tier == 'quick' else 12), 330),
+                                                                     ('late-errors', Mx.late_error_cases, 320),
                                                                      ('sets', Mx.sets_cases, 80), ('lists', Mx.lists_cases, 250), ('zsets', Mx.zsets_cases, 150),
                                                                      ('ttl-rules', Mx.ttl_cases, 120)], OBSERVERS['C09'])),
     'C10': generic('C10', pre=lambda res, tier, seed, t_end, bad: matrix_pre(res, 'C10', tier, seed, t_end, [('subscriber-mode', Mx.subscriber_mode_cases, 500), ('pubsub-glob', Mx.pubsub_glob_cases, 100), ('pubsub-server', Mx.pubsub_server_cases, 100)], OBSERVERS['C10']),
